@@ -20,7 +20,7 @@ Import ListNotations.
 From HV Require Import lib.Harness model.SerialHugr spec.SerialHugrS proofs.SerialHugrP.
 From HV Require Import model.Schema model.SchemaFast model.SchemaStrip model.DocJson model.NodeParent proofs.SchemaFastP
   proofs.SchemaStripP proofs.DocJsonP
-  proofs.NodeParentP proofs.DocJsonSchemasP gen.Schemas spec.DocJsonS proofs.DocJsonIndexP.
+  proofs.NodeParentP proofs.DataEquivP proofs.DocJsonSchemasP gen.Schemas spec.DocJsonS proofs.DocJsonIndexP.
 Open Scope nat_scope.
 
 Section C03.
@@ -113,6 +113,17 @@ Section C03Schema.
     accepts (3 + f) published_hugr_strict "SerialHugr" (doc_json op_fields md_fields encoder s) = true.
   Proof. exact (published_model_doc_accepted sop md op_fields md_fields op enc ndp md_is_nil). Qed.
 
+  (* the same for the text hugr-py emitted, whenever it is the model's rendering as JSON data (objects as maps): the
+     premise is what the correspondence evaluates per case (run/C03SchemaRun.v tie_ok); validation cannot tell
+     data-equal documents apart (proofs/DataEquivP.v: data_equiv is symmetric and transitive, every keyword respects it) *)
+  Theorem C03_emitted_document_schema_valid : forall (encoder : option string) (f : nat) (h : hugr op md) (s : serial sop md)
+      (emitted : json),
+    4 <= f -> ops_valid0 published_hugr_strict sop op_fields f ->
+    to_serial enc ndp md_is_nil h = Some s ->
+    data_equiv (doc_json op_fields md_fields encoder s) emitted = true ->
+    accepts (3 + f) published_hugr_strict "SerialHugr" emitted = true.
+  Proof. exact (published_emitted_doc_accepted sop md op_fields md_fields op enc ndp md_is_nil). Qed.
+
   (* a package of such modules and of extension documents the file's Extension definition accepts validates
      against {"$ref": "#/$defs/Package"} *)
   Theorem C03_model_package_schema_valid : forall (f : nat) (hs : list (hugr op md)) (mods : list (serial sop md)) (exts : list json),
@@ -143,6 +154,11 @@ Theorem C03_published_OpType_ignores_parent_index : forall f a b kvs,
   accepts f published_hugr_strict "OpType" (pnode a kvs) = accepts f published_hugr_strict "OpType" (pnode b kvs).
 Proof. exact (accepts_parent_indep _ _ "OpType" strict_OpType_parent_cert (or_introl eq_refl)). Qed.
 
+(* documents that are equal as JSON data (member order of objects irrelevant) get the same verdict, for every schema *)
+Theorem C03_validation_respects_data_equality : forall fuel root s d1 d2,
+  data_equiv d1 d2 = true -> validates fuel root s d1 = validates fuel root s d2.
+Proof. exact validates_data_equiv. Qed.
+
 (* annotations (title, description, default, discriminator) have no effect on validation: what lets the shapes be
    written without the documentation strings of the published file *)
 Theorem C03_annotations_do_not_matter : forall fuel root s d,
@@ -170,7 +186,9 @@ Print Assumptions C03_json_text_port_addressing.
 Print Assumptions C03_index_reuse_refuted.
 Print Assumptions C03_example.
 Print Assumptions C03_model_document_schema_valid.
+Print Assumptions C03_emitted_document_schema_valid.
 Print Assumptions C03_model_package_schema_valid.
+Print Assumptions C03_validation_respects_data_equality.
 Print Assumptions C03_document_schema_valid_any_file.
 Print Assumptions C03_published_shapes.
 Print Assumptions C03_published_OpType_ignores_parent_index.
